@@ -157,6 +157,8 @@ struct Fix {
     /// (actor, doc, signature bytes) -> verifies under the raw ed25519 check
     valid: BTreeMap<(u8, u8, Vec<u8>), bool>,
     pool: Vec<PublicKey>,
+    /// Some entry, handed to `op` as "a concurrent operation exists" (only its presence is read).
+    sibling: cob::Entry,
 }
 
 static FIXES: OnceLock<Vec<Fix>> = OnceLock::new();
@@ -239,6 +241,7 @@ fn build_fixture(base: &std::path::Path, n_del: usize, menu: Vec<u8>, max_revs: 
         assert_eq!(Oid::from(oid), d.blob);
     }
     let initial = Identity::get(&ObjectId::from(root), &repo).expect("Identity::get");
+    let sibling = radicle::cob::change::Storage::load(&repo, root).expect("load root entry");
     assert_eq!(initial.current, root);
     let rid = repo.id;
     let repo_path = repo_path(&storage, &rid);
@@ -266,7 +269,7 @@ fn build_fixture(base: &std::path::Path, n_del: usize, menu: Vec<u8>, max_revs: 
     }
     let mut pool = vec![keys[0]];
     pool.extend((0..12u8).map(|i| *dev(200 + i).public_key()));
-    Fix { repo_path, rid, n_del, depth, max_devs, actors, keys, docs, menu, max_revs, root, initial, sigs, valid, pool }
+    Fix { repo_path, rid, n_del, depth, max_devs, actors, keys, docs, menu, max_revs, root, initial, sigs, valid, pool, sibling }
 }
 
 #[derive(Clone)]
@@ -282,6 +285,11 @@ struct RevInfo {
 struct Sys {
     /// Configuration, once chosen by the first event.
     f: Option<&'static Fix>,
+    /// Graph model: the change graph of this history contains a surviving leaf — an earlier
+    /// single-action operation that was refused with `UnexpectedState` while it had no concurrent
+    /// operation; now that later operations exist it is their sibling (and, evaluated again, is
+    /// itself tolerated instead of refused, which changes nothing as it has one action).
+    survivor: bool,
     id: Identity,
     /// Model: revisions by creation order.
     revs: Vec<RevInfo>,
@@ -297,7 +305,7 @@ impl Sys {
     fn new() -> Sys {
         // Placeholder object until `Cfg` picks the configuration.
         let f = &fixes()[0];
-        Sys { f: None, id: f.initial.clone(), revs: vec![], signed: BTreeSet::new(), hist: vec![], applied: vec![] }
+        Sys { f: None, survivor: false, id: f.initial.clone(), revs: vec![], signed: BTreeSet::new(), hist: vec![], applied: vec![] }
     }
 
     fn fx(&self) -> &'static Fix {
@@ -387,7 +395,8 @@ impl Sys {
             }
         }
         let op = Op::new(op_id, nonempty::NonEmpty::from_vec(actions).expect("actions"), f.keys[by as usize], Timestamp::from_secs(T0), None, Manifest::new(identity::TYPENAME.clone(), cob::Version::default()));
-        let result = with_repo(f, |repo| self.id.op(op, std::iter::empty::<&cob::Entry>(), repo));
+        let concurrent: Vec<&cob::Entry> = if self.survivor { vec![&f.sibling] } else { vec![] };
+        let result = with_repo(f, |repo| self.id.op(op, concurrent, repo));
         let mut made = None;
         if let Some((doc, parent)) = proposed {
             if self.id.revision(&op_id).is_some() {
@@ -692,8 +701,19 @@ impl System for Sys {
         } else {
             None
         };
+        let had_sibling = self.survivor;
         let (result, _made) = self.apply(by, &acts);
         self.hist.push(ev.clone());
+        // Graph model (see `survivor`). A refused operation is a leaf of the change graph. One that
+        // was refused with UnexpectedState *for want of a concurrent operation* will have one as soon
+        // as anything is appended: with a single action that changes nothing (it is tolerated and
+        // still has no effect) and it becomes the sibling of everything later; with two actions the
+        // longer history would evaluate it differently, so such a state is not extended.
+        let refused_alone = !had_sibling && matches!(result, Err(identity::ApplyError::UnexpectedState));
+        let dead_end = refused_alone && acts.len() > 1;
+        if refused_alone && acts.len() == 1 {
+            self.survivor = true;
+        }
 
         let mut vs = vec![];
         // I4 (first: `cur_ix` below needs a live current revision)
@@ -768,12 +788,13 @@ impl System for Sys {
                 STRIDE_SET.lock().unwrap().insert(key);
             }
         }
-        StepOut { violations: vs, outcome: format!("{}/{who}:{res}{moved}", ev.kind()), dead: false }
+        let conc = if had_sibling { "" } else { "/alone" };
+        StepOut { violations: vs, outcome: format!("{}/{who}{conc}:{res}{moved}", ev.kind()), dead: dead_end }
     }
 
     fn canon(&self) -> Vec<u8> {
         let Some(f) = self.f else { return b"unconfigured".to_vec() };
-        let mut out = vec![f.n_del as u8];
+        let mut out = vec![f.n_del as u8, self.survivor as u8];
         out.extend(self.snapshot(false));
         out.push(0xfb);
         for r in &self.revs {
@@ -837,6 +858,8 @@ fn main() {
     let configs = if replaying { vec![(4, vec![1, 2, 3], 16, 64), (5, vec![1, 2, 3], 16, 64)] } else { configs };
     let base = tempfile::Builder::new().prefix("verif-c04-").tempdir().expect("tempdir").into_path();
     let _ = BASE.set(base.clone());
+    // Development aid: C04_STRIDE=n replays 1 in n executed histories in any tier.
+    let stride = std::env::var("C04_STRIDE").ok().and_then(|s| s.parse().ok()).unwrap_or(stride);
     let _ = STRIDE.set(stride);
     let fixtures: Vec<Fix> = configs.iter().map(|(n, menu, max_revs, depth)| build_fixture(&base, *n, menu.clone(), *max_revs, *depth, devs)).collect();
     if FIXES.set(fixtures).is_err() {
@@ -893,9 +916,15 @@ fn main() {
         todo.len() as u64,
         |i| {
             let hist = parse_hist(&todo[i as usize]);
-            match Sys::conformance(&hist) {
-                Ok(()) => mcx::sweep::ItemOut::new(mcx::fnv64(todo[i as usize].as_bytes()) | 1, "agree"),
-                Err(e) => die(&format!("conformance replay of {} failed: {e}", todo[i as usize])),
+            match mcx::panics::catch(|| Sys::conformance(&hist)) {
+                Ok(Ok(())) => mcx::sweep::ItemOut::new(mcx::fnv64(todo[i as usize].as_bytes()) | 1, "agree"),
+                Ok(Err(e)) => die(&format!("conformance replay of {} failed: {e}", todo[i as usize])),
+                Err(c) if c.file.starts_with("chk-") || c.file.starts_with("mcx/") => die(&format!("harness panic in conformance replay of {}: {} ({}:{})", todo[i as usize], c.message, c.file, c.line)),
+                Err(c) => mcx::sweep::ItemOut::new(mcx::fnv64(c.site().as_bytes()) | 1, format!("panic:{}", c.site())).with(vec![Violation::new(
+                    format!("C04/panic@{}", c.site()),
+                    format!("panic while the history is applied / evaluated from real commits: {} ({}:{})", c.message, c.file, c.line),
+                    json!({"history": serde_json::from_str::<Value>(&todo[i as usize]).unwrap_or(Value::Null), "detail": {"panic": c.message, "file": c.file, "where": "conformance replay"}}),
+                )]),
             }
         },
         // A panic of the code under test while the real evaluation runs is a violation with the same
@@ -930,7 +959,7 @@ fn main() {
         &[
             "operations carry one action, or two actions in the shapes [accept|reject, propose], [propose, accept], [accept, accept another], [accept, redact], [edit, accept] (valid signatures, non-root targets; every two-action operation counts as a deviation); an operation with two `revision` actions is kept out of the alphabet because both would use the entry id as revision id and trip debug_assert!(!self.revisions.contains_key(&entry)) in Identity::action; longer operations are the subject of C06",
             "for the second action of an operation, `the current document` is the one after the first action alone, obtained by applying that action by itself (same entry id) to a copy with the real Identity::op",
-            "the linear history is realised as a change graph in which every operation is a child of the last successfully applied one (failed operations are leaves); `concurrent` is empty for every in-memory application — it only affects whether an UnexpectedState operation is reported as failed or ignored, never the state",
+            "the linear history is realised as a change graph in which every operation is a child of the last successfully applied one (refused operations are leaves). `concurrent` is what that graph gives: empty until a single-action operation has been refused with UnexpectedState, non-empty afterwards (that leaf survives as everybody's sibling). A two-action operation refused with UnexpectedState while nothing is concurrent is checked but not extended (a longer history would evaluate it differently)",
             "trusted: ed25519 verification primitive, git object store",
         ],
         violations,
